@@ -130,6 +130,14 @@ def run(tier, seed):
     for op, cnt in (("ep2_map_sswum", 6 if quick else 40), ("ep2_map_basic", 3 if quick else 16),
                     ("ep2_map_swift", 3 if quick else 16), ("ep2_map", 1 if quick else 4)):
         c2 += gen_map.message_cases("pairf", [op], rng, msgs(rng, cnt))
+    # the other pairing-friendly sets of the build (SM9_P256: M-type twist, positive curve parameter), selected by id
+    for c in curves:
+        if getattr(c, "pairf", 0) and c.spec not in ("id23",):
+            sel = "pf" + c.spec[2:]
+            c2.append("map_params2 " + sel)
+            for op, cnt in (("ep2_map_sswum", 4 if quick else 24), ("ep2_map_basic", 2 if quick else 8),
+                            ("ep2_map_swift", 2 if quick else 8), ("ep2_map", 1 if quick else 4)):
+                c2 += gen_map.message_cases(sel, [op], rng, msgs(rng, cnt))
     part("std256-ep2", "std256", c2)
     cb = []
     for i in EB_IDS:
